@@ -126,7 +126,7 @@ def check_case(case, acc):
         problem = mut.consistency_problem(universe, rec.labels)
         if problem is not None:
             raise Violation("link-invariant", "after %s plan=%s (raised %s): %s; before=%s after=%s" % (step.op, step.plan, type(step.exc).__name__, problem, step.pre, step.post))
-        if isinstance(step.exc, AssertionError) and not isinstance(step.exc, mut.Veto) and not step.plan.get("evict") and not step.plan.get("rehome"):
+        if isinstance(step.exc, AssertionError) and not isinstance(step.exc, mut.Veto) and not step.plan.get("evict") and not step.plan.get("rehome") and not step.plan.get("refile"):
             # (a hook that evicts a child which the call itself is attaching trips the optional 'all requested children are attached' self-check: the hook's doing)
             raise Violation("internal-assertion", "assertion fired in %s plan=%s: %r; before=%s" % (step.op, step.plan, step.exc, step.pre))
         if step.post != step.pre:
@@ -206,6 +206,14 @@ def run_task(task, acc):
                  for state, route in mut.enum_states(task["n"], 0, 1) if route == "parent"
                  for op in mut.calls_for(task["n"], fam, invalid=False, maxlen=min(task["n"], 3)) if op[0] != "del"
                  for hook in ("pre_attach", "post_attach") for label in range(task["n"]))
+        acc.run_enum(check_case, cases)
+        # ... and a detach hook that re-files the next sibling of the leaving node under another node (needs a fourth node
+        # to receive it: one more node, shorter children lists)
+        n4 = task["n"] + 1
+        cases = ({"cls": task["cls"], "n": n4, "state": state, "route": "parent", "steps": [{"op": op, "plan": {"refile": [[hook, label]]}}], "assertions": task["assertions"], "reading_hooks": label % 2}
+                 for state, route in mut.enum_states(n4, 0, 1) if route == "parent"
+                 for op in mut.calls_for(n4, fam, invalid=False, maxlen=1 if n4 >= 4 else 2)
+                 for hook in ("pre_detach", "post_detach") for label in range(n4))
         return acc.run_enum(check_case, cases)
     if task["engine"] == "stack":
         cases = ({"kind": "stack", "cls": task["cls"], "state": state, "op": op, "headroom": h, "assertions": task["assertions"]} for state in STACK_STATES for op in STACK_OPS for h in range(3, task["max_headroom"]))
